@@ -320,7 +320,7 @@ def var_chao1(counts):
     
     f2 = counts[1]
     ratio = f1 / f2
-    return f2 * ((ratio / 4) ** 4 + ratio**3 + (ratio / 2) ** 2)
+    return f2 * (ratio**4 / 4 + ratio**3 + ratio**2 / 2)
 
 def chao2(counts, m):
     """Estimate richness from incidence data
